@@ -25,7 +25,12 @@ Third wave (alphabets in mc/domains/w3_c06.py):
   widened downwards, a table / a range given to a group that had none; all
   ordered selections of <= 2 (thorough: 3) applicable pieces x with/without an
   estimate requested before the first update x 5 unit + 20 ordered pair
-  mappings; the expected range comes from a dictionary model of the pieces.
+  mappings; the expected range comes from a dictionary model of the pieces;
+* family SETRANGE: every sequence of <= 2 set_range() calls over 6 placements
+  of the new range (cut above the table, cut into the table, cut below,
+  widened, none, the single point T_ref) on the five base groups as
+  ThermochemIncomplete, ThermochemGroup and ThermochemRawData; after each
+  accepted call the object must report the new range and is judged on the grid.
 """
 import math
 
@@ -50,7 +55,9 @@ BOUND = {t: 'family K of C05 (%s tier) x 3 classes; every group of 9 libraries '
             'range relative to T_ref = 216 correlations; family HIST: 25 '
             'mappings over a 5-group constructor-built library x all ordered '
             'selections of <= %d of the 2-3 Update() pieces of each group x '
-            'with/without a prior Estimate = %d histories'
+            'with/without a prior Estimate = %d histories; family SETRANGE: '
+            'all sequences of <= 2 set_range() calls over 6 placements x 5 base '
+            'groups x 3 classes'
             % (t, W3.MAXLEN[t], sum(sum(1 for _ in W3.histories(m, W3.MAXLEN[t]))
                                     for m in W3.MAPPINGS))
          for t in ('quick', 'thorough')}
@@ -454,6 +461,82 @@ def run_history(R, mapping, pre, seq, wit):
               for s in states), special=special)
 
 
+# --------------------------------------------------------- SETRANGE family
+# The range of a correlation can also be changed after construction
+# (ThermochemBase.set_range, public).  Every sequence of <= 2 set_range calls
+# over 6 placements of the new range relative to the old one, T_ref and the
+# table, on every base group of the HIST family as ThermochemIncomplete,
+# ThermochemGroup and (where it has a table) ThermochemRawData.  After each
+# accepted call the object must report the new range and is judged on the grid
+# against it.  A call that raises ends the history without a verdict.
+
+def setrange_candidates(g):
+    b = W3.BASE[g]
+    lo, hi = b['rng'] if b['rng'] is not None else (250.0, 1000.0)
+    top = max(list(b['cp']) + [W3.H_TREF])
+    ks = sorted(b['cp'])
+    out = [('cut-above-table', (lo, top + 50.0)),
+           ('cut-below', (W3.H_TREF - 1.0, hi)),
+           ('widen', (lo - 100.0, hi + 500.0)),
+           ('none', None),
+           ('point-at-Tref', (W3.H_TREF, W3.H_TREF))]
+    if len(ks) >= 2:
+        out.append(('cut-into-table', (lo, 0.5 * (ks[-1] + ks[-2]))))
+    else:
+        out.append(('cut-at-Tref+1', (lo, W3.H_TREF + 1.0)))
+    return out
+
+
+def setrange_sequences(g):
+    c = setrange_candidates(g)
+    for a in c:
+        yield [a]
+    for a in c:
+        for b_ in c:
+            yield [a, b_]
+
+
+def run_setrange(R, cls_name, g, only=None):
+    import pgradd.ThermoChem as tc
+    from pgradd.ThermoChem.raw_data import ThermochemRawData
+    b = W3.BASE[g]
+    knots = sorted(b['cp'])
+    if cls_name == 'RawData' and not knots:
+        return
+    for seq in setrange_sequences(g):
+        names = [n for n, _ in seq]
+        if only is not None and only != names:
+            continue
+        wit = dict(kind='setrange', cls=cls_name, group=g, seq=names,
+                   what='%s of base group %s after set_range %s' % (
+                       cls_name, g, ' then '.join('%s=%r' % x for x in seq)))
+        if cls_name == 'RawData':
+            k = ThermochemRawData(b['H'], b['S'], knots, [b['cp'][t] for t in knots],
+                                  W3.H_TREF, b['rng'])
+        else:
+            cls = tc.ThermochemIncomplete if cls_name == 'Incomplete' else tc.ThermochemGroup
+            k = cls(b['H'], b['S'], dict(b['cp']), W3.H_TREF, b['rng'])
+        for n, (name, rng) in enumerate(seq):
+            R.evals += 1
+            r = E.ev(k.set_range, rng)
+            if r[0] != 'ok':
+                R.outcomes['setrange:refused(%s)' % r[1].split(':')[0]] += 1
+                break
+            R.nontrivial += 1
+            got = k.get_range()
+            got = None if got is None else (float(got[0]), float(got[1]))
+            if got != rng:
+                R.violation('setrange:range-reported:%s' % cls_name,
+                            '%s reports range %r' % (wit['what'], got), wit)
+                break
+            R.outcomes['setrange:accepted'] += 1
+            stand = _Stand(dict(cp=b['cp'], H=b['H'], S=b['S']))
+            special = [W3.H_TREF] + [t for r_ in (b['rng'], rng) if r_ for t in r_]
+            judge(R, 'setrange:' + cls_name, k, rng, knots, W3.H_TREF, [stand], wit,
+                  lambda p: (bool(b['cp']) if p == 'get_CpoR' else True),
+                  special=special)
+
+
 def run_hist(R, mi, tier, only=None):
     mapping = W3.MAPPINGS[mi]
     for pre, seq in W3.histories(mapping, W3.MAXLEN[tier]):
@@ -483,6 +566,9 @@ def shards(tier, seed):
         out.append(('Z', cls_name))
     for mi in range(len(W3.MAPPINGS)):
         out.append(('hist', mi))
+    for c in ('Incomplete', 'Group', 'RawData'):
+        for g in W3.GROUPS:
+            out.append(('setrange', c, g))
     return out
 
 
@@ -496,6 +582,8 @@ def run_shard(shard, tier):
         run_Z(R, shard[1])
     elif shard[0] == 'hist':
         run_hist(R, shard[1], tier)
+    elif shard[0] == 'setrange':
+        run_setrange(R, shard[1], shard[2])
     else:
         run_estimates(R, shard[1], shard[2], shard[3])
     return R
@@ -510,6 +598,8 @@ def replay(w):
         run_groups(R, w['lib'], only=w['group'])
     elif w['kind'] == 'Z':
         run_Z(R, w['desc']['cls'], only=w['desc'])
+    elif w['kind'] == 'setrange':
+        run_setrange(R, w['cls'], w['group'], only=w['seq'])
     elif w['kind'] == 'hist':
         m = [tuple(x) for x in w['mapping']]
         run_hist(R, W3.MAPPINGS.index(m), 'thorough', only=w['history'])
